@@ -94,7 +94,7 @@ PkceAuthzErr(st, p) ==   \* pkce.Handler.validate at the authorization endpoint
   IF ~HasCode(p.rtype) THEN "ok"
   ELSE IF p.pkce = "none"
        THEN IF st.cfg.pkce_all \/ (st.cfg.pkce_pub /\ Public(p.client)) THEN "pkce_required" ELSE "ok"
-  ELSE IF p.pkce = "S256" THEN "ok"
+  ELSE IF p.pkce \in {"S256", "S256_ill"} THEN "ok"
   ELSE IF p.pkce = "s256lc" THEN "pkce_unknown_method"      \* method names are exact: "s256" is not a method
   ELSE IF st.cfg.pkce_plain THEN "ok" ELSE "pkce_plain_disabled"
 
@@ -169,19 +169,23 @@ DoAuthorize(st, op) ==
 (* ======================================================================== *)
 (* Token endpoint: authorization_code                                       *)
 (* ======================================================================== *)
+(* "S256_ill" / "plain_ill": the client derived its challenge from a verifier that contains a character outside the
+   unreserved set (the operation's field ill names it: ! [ ] ^ ` \ and so on).  The authorization endpoint cannot know;
+   the token endpoint refuses that verifier as malformed, so no verifier redeems such a code. *)
+IllMethods == {"S256_ill", "plain_ill"}
 VerifierOK(method, ver) ==           \* the presented verifier transforms to the stored challenge
   \* "plain_short": a plain challenge that is itself malformed (42 characters; the authorization endpoint does not
   \* look at its shape): the only verifier equal to it is malformed, so no verifier redeems such a code
-  ver = "right" /\ method # "plain_short"
+  ver = "right" /\ method \notin ({"plain_short"} \cup IllMethods)
 PkceTokenErr(st, op, k) ==           \* pkce.Handler.HandleTokenEndpointRequest, given code k exists
   IF ~HasPKCE(st.S, k)
   THEN IF op.ver = "none"
        THEN IF st.cfg.pkce_all \/ (st.cfg.pkce_pub /\ Public(op.client)) THEN <<"invalid_request", "pkce_required">> ELSE <<"ok", "ok">>
        ELSE <<"invalid_grant", "pkce_unexpected_verifier">>
   ELSE LET m == st.S.pkce[k].method IN
-       IF m # "S256" /\ ~st.cfg.pkce_plain THEN <<"invalid_request", "pkce_plain_disabled">>
+       IF m \notin {"S256", "S256_ill"} /\ ~st.cfg.pkce_plain THEN <<"invalid_request", "pkce_plain_disabled">>
        ELSE IF op.ver = "none" THEN <<"invalid_grant", "pkce_missing_verifier">>
-       ELSE IF op.ver \in {"short", "long", "illegal"} THEN <<"invalid_grant", "pkce_malformed_verifier">>
+       ELSE IF op.ver \in {"short", "long", "illegal"} \/ (op.ver = "right" /\ m \in IllMethods) THEN <<"invalid_grant", "pkce_malformed_verifier">>
        ELSE IF ~VerifierOK(m, op.ver) THEN <<"invalid_grant", "pkce_mismatch">>
        ELSE <<"ok", "ok">>
 
@@ -533,7 +537,7 @@ StepFailedRedeemInert(st, op, r) ==
 (* C03 *)
 StepPkceGuard(st, op, r) ==
   (op.op = "redeem" /\ r.out.res = "ok") =>
-     /\ (HasPKCE(st.S, op.code) => op.ver = "right")
+     /\ (HasPKCE(st.S, op.code) => op.ver = "right" /\ st.S.pkce[op.code].method \notin IllMethods)
      /\ (~HasPKCE(st.S, op.code) => ~(st.cfg.pkce_all \/ (st.cfg.pkce_pub /\ Public(op.client))))
 PkceBindingStable(st) ==     \* a challenge stays bound to its code for as long as the code is redeemable
   \A k \in DOMAIN st.S.pkce : st.S.code[k].active => st.S.pkce[k].present
